@@ -278,6 +278,15 @@ class Norm:
         self._memo[lid] = t
         return t
 
+    def _is_mut_local_effect(self, node):
+        """statement already represented as an effect inside the term of a `mut` local"""
+        for lid, effs in self.effects.items():
+            if lid in self.mut:
+                for n, _k, _g in effs:
+                    if n is node:
+                        return True
+        return False
+
     def param_id(self, i):
         p = self.body["params"][i]
         while p.get("k") in ("PRef",):
@@ -445,14 +454,10 @@ class Norm:
                         if mt[0] == "match" and any(_diverges(bt) for _p, _g, bt in mt[2]):
                             handled = True
                             early.append((("lit", "match"), mt))
-                    if not handled and st is not b["stmts"][-1] or (not handled and "expr" in b):
-                        if inner.get("k") in ("Call", "MethodCall", "Match", "If", "Loop", "Block"):
-                            et = self._t(inner)
-                            if et != ("lit", "()") and not _diverges(et):
-                                effs.append(et)
-                    elif not handled and inner.get("k") in ("Call", "MethodCall", "Match", "If", "Loop", "Block") and inner.get("ty") != "!":
+                    if not handled and inner.get("k") in ("Call", "MethodCall", "Match", "If", "Loop", "Block") and inner.get("ty") != "!" \
+                            and not self._is_mut_local_effect(inner):
                         et = self._t(inner)
-                        if et != ("lit", "()") and not _diverges(et):
+                        if not _is_unit(et) and not _diverges(et):
                             effs.append(et)
                 elif sk == "SLet" and "els" in st:
                     early.append((("iflet-not", pat_repr(st["pat"]), self._t(st["init"])), self._t({"k": "Block", "b": st["els"], "ty": "!x"})))
@@ -551,6 +556,16 @@ class Norm:
             else:
                 out.append(("arg", p[2], self._t(p[1])))
         return ("fmt", out)
+
+
+def _is_unit(t):
+    if t == ("lit", "()"):
+        return True
+    if t[0] == "if":
+        return _is_unit(t[2]) and _is_unit(t[3])
+    if t[0] == "seq":
+        return not t[1] and _is_unit(t[2])
+    return False
 
 
 def _diverges(t):
@@ -675,6 +690,8 @@ def _show(t):
     if k == "sym":
         return t[1]
     if k == "lit":
+        if isinstance(t[1], bool):
+            return "true" if t[1] else "false"
         return repr(t[1]) if isinstance(t[1], str) else str(t[1])
     if k == "def":
         return t[1]
